@@ -85,7 +85,7 @@ mod verif_replay_authorize {
 '''
 
 
-def authorize_case(test_name, ip, port, elevated, rules_present, allowed, mode, expect_pred, why, url_path=None):
+def authorize_case(test_name, ip, port, elevated, rules_present, allowed, mode, expect_pred, why, url_path=None, user_id=None, process_id=None):
     url = "http://localhost/verif?x=1"
     if url_path and url_path.startswith("/") and all(32 < ord(c) < 127 and c not in '"\\ ' for c in url_path):
         url = "http://localhost" + url_path
@@ -95,8 +95,9 @@ def authorize_case(test_name, ip, port, elevated, rules_present, allowed, mode, 
         let mut logger = ConnectionLogger::new(0, 0);
         let r = crate::proxy::proxy_authorizer::authorize(
             "%s".to_string(), %d, &mut logger, hyper::Uri::from_str("%s").unwrap(),
-            claims(%s), rules(%s, %s, "%s"));
+            { let mut c = claims(%s); %s c }, rules(%s, %s, "%s"));
         assert!(%s, "%s: got {}", name(&r));
     }
-''' % (test_name, ip, port, url, "true" if elevated else "false", "true" if rules_present else "false",
-       "true" if allowed else "false", mode, expect_pred, why)
+''' % (test_name, ip, port, url, "true" if elevated else "false",
+       ("c.userId = %d;" % user_id if user_id is not None else "") + (" c.processId = %d;" % process_id if process_id is not None else ""),
+       "true" if rules_present else "false", "true" if allowed else "false", mode, expect_pred, why)
